@@ -475,6 +475,7 @@ class World:
             name, param, app_param, sig = parse_interest(wire)
             comps = [bytes(c) for c in name]
             info['name'] = comps
+            info['lifetime'] = param.lifetime if param.lifetime is not None else 4000
             base = 5
             verb = bytes(Component.get_value(comps[3])).decode()
             cp = nfd_mgmt.ControlParameters.parse(Component.get_value(comps[4]))
@@ -636,7 +637,7 @@ class World:
         if r[0] == 2:
             # exactly the lifetime of the command (no extra millisecond: sleepers of the timestamp loop
             # are woken by ticks only)
-            self.loop.advance_to(max(self.loop.time(), info['sent_at'] + 1.0 + 1e-6))
+            self.loop.advance_to(max(self.loop.time(), info['sent_at'] + info.get('lifetime', 1000) / 1000.0 + 1e-6))
             return
         if info['name'] is None:
             return
